@@ -7,6 +7,7 @@ import (
 	"runtime"
 	"strings"
 	"sync"
+	"sync/atomic"
 )
 
 // ---------------------------------------------------------------------------
@@ -67,6 +68,8 @@ type sched struct {
 	switches int
 	sig      uint64 // hash of the realised (task, site) switch sequence
 	deferred int64  // switches postponed because the task was inside a critical section
+	baseG    int    // goroutines alive once all tasks were started
+	finished atomic.Int32
 }
 
 func (s *sched) lockHook(delta int) {
@@ -85,14 +88,20 @@ func (s *sched) hook(site int) {
 	if t == nil {
 		return
 	}
+	// A goroutine the LIBRARY started is not a task: it never holds the baton, runs freely, and its yield
+	// points must not count (they would perturb the quantum and with it the replayability of the schedule).
+	// Goroutine identity is slow to look up, so it is looked up only while more goroutines exist than the
+	// simulator itself started (cheap to ask).
+	foreign := runtime.NumGoroutine() > s.baseG-int(s.finished.Load())
+	if foreign && goid() != t.gid {
+		return
+	}
 	s.yields++
 	s.quantum--
 	if s.quantum > 0 {
 		return
 	}
-	if goid() != t.gid {
-		// a goroutine the LIBRARY started: not a task, never holds the baton, runs freely; the task
-		// itself switches at its next yield point (goroutine identity is looked up only here: it is slow)
+	if !foreign && goid() != t.gid {
 		return
 	}
 	if t.lockDepth > 0 {
@@ -116,6 +125,7 @@ func (s *sched) runTask(t *taskRun) {
 		}
 		t.done = true
 		s.cur = nil
+		s.finished.Add(1)
 		s.yielded <- struct{}{}
 	}()
 	t.gid = goid()
@@ -157,6 +167,7 @@ func runSerialized(tasks []Task, schedule []SchedSlot) (traces [][]string, yield
 		s.tasks = append(s.tasks, t)
 		go s.runTask(t)
 	}
+	s.baseG = runtime.NumGoroutine()
 	prev, prevL := schedHook, schedLockHook
 	schedHook, schedLockHook = s.hook, s.lockHook
 	for _, slot := range schedule {
